@@ -213,6 +213,15 @@ Example C12_nonvacuous_hyps :
   dirty (fst (run ex_env init ex_ops)) = false.
 Proof. vm_compute. repeat split; reflexivity. Qed.
 
+(* the exclusions of C12_applied_when_enabled are needed: DeleteIngress(key, skipReload = true)
+   returns without error with reloads enabled and leaves its change unapplied (by contract: only
+   the batch operations of the Configurator call it, and they reload afterwards) *)
+Example C12_skip_reload_leaves_change :
+  let '(s1, _) := run (env_ok false) init [OEnable; OAdd (ex_res KIng "default-a" 0)] in
+  let '(s2, x) := step (env_ok false) s1 (ODelete KIng "default-a" true) in
+  enabled s2 = true /\ oerr x = ENone /\ dirty s1 = false /\ dirty s2 = true /\ applied false (log x) = false.
+Proof. vm_compute. repeat split; reflexivity. Qed.
+
 (* a batch of three tasks at the controller in which a file changes: the draining sync reloads *)
 Definition ex_task (k : tkind) (q : nat) (w : list op) (f : bool) : task :=
   {| t_kind := k; t_qlen := q; t_work := w; t_found := f; t_reports := true; t_all_reports := true; t_mainver := 0; t_all := [] |}.
